@@ -125,3 +125,46 @@ def emit_prog(only=None):
         o.append("")
     return o
 SPECIAL = {}
+
+PATFUNS = ["parseMapKey", "parsePattern", "parseOrPattern", "parseOrPatRest", "parseClosed", "parsePatternList",
+           "parseClassArgs", "parseClassItems", "parseMapItems"]
+
+def emit_pat():
+    allnames = [n for n, _, _ in PROGFUNS]
+    B = bodies("/verif/lean/PV/Prog/Parse.lean", allnames)
+    funs = [(n, b, app) for n, b, app in PROGFUNS if n in PATFUNS]
+    o = [open("/verif/tools/c04_seg_header3.lean").read(), ""]
+    o.append("/-- every function of the pattern grammar consumes a segment without `as _`, at fuel `f` -/")
+    o.append("structure PatSeg (f : Nat) : Prop where")
+    for n, b, app in funs:
+        o.append(f"  {n} : ∀ {b} v r, {app.format(F='f')} = some (v, r) → SegA ts r")
+    o.append("")
+    o.append("theorem patSeg_zero : PatSeg 0 := by")
+    o.append("  constructor <;> intros <;> simp_all [" + ", ".join(PATFUNS) + "]")
+    o.append("")
+    for n, b, app in funs:
+        body = B[n]
+        o.append(f"theorem patSeg_step_{n} (f : Nat) (ih : PatSeg f) : ∀ {b} v r, {app.format(F='(f + 1)')} = some (v, r) → SegA ts r := by")
+        o.append(f"  intro {' '.join(names(b))} v r h")
+        for m in PATFUNS:
+            if re.search(r"\b" + m + r"\b", body):
+                o.append(f"  have ih_{m} := ih.{m}")
+        o.append("  clear ih")
+        o.append(f"  unfold {n} at h")
+        o.append("  segA_step h")
+        o.append("")
+    o.append("/-- **no function of the pattern grammar consumes `as _`** -/")
+    o.append("theorem patSeg : ∀ f, PatSeg f")
+    o.append("  | 0 => patSeg_zero")
+    o.append("  | f + 1 => ⟨" + ", ".join(f"patSeg_step_{n} f (patSeg f)" for n in PATFUNS) + "⟩")
+    o.append("")
+    o.append("""/-- `Patterns` (what follows `case`) never consumes an `as` token that is followed by `_` -/
+theorem parsePatterns_segA {f : Nat} {ts : List Tok} {v : Pattern} {r : List Tok} (h : parsePatterns f ts = some (v, r)) :
+    SegA ts r := by
+  unfold parsePatterns at h
+  split at h
+  · rename_i p r' heq; simp at h; obtain ⟨_, rfl⟩ := h; exact (patSeg f).parsePatternList _ _ _ heq
+  · rename_i ps x r' heq; simp at h; obtain ⟨_, rfl⟩ := h; exact (patSeg f).parsePatternList _ _ _ heq
+  · simp at h
+""")
+    return o
